@@ -109,9 +109,28 @@ def run_rules(R, ts):
                 x = RU.strip_addr(f, a)
                 if x is not None and x["k"] == "var" and x["n"] == batch:
                     uses.append((e, i))
-    okuse = all(e.node.get("callee", "").startswith("aws_linked_list_") for e, i in uses)
+    okuse = all((e.node.get("callee") or "").startswith("aws_linked_list_") for e, i in uses)
     other = [e for e in f.all_events() if e.kind == "access" and e.node["k"] == "var" and e.node["n"] == batch and e.mode == "addr"]
-    R.check(okuse and len(other) == len(uses), "BATCH", "batch-is-private", "%s()" % f.name, "the batch list's address only goes to linked-list functions (%d uses)" % len(uses),
+    # the address may also be bound to the list parameter of an expanded private helper (sa/flatten.py); such a parameter
+    # is then itself only handed to linked-list functions (RU.arg sees through it: those calls are among `uses`)
+    binds = set()
+    for e in f.all_events():
+        if e.kind == "decl":
+            for v in e.node["vars"]:
+                if v.get("bind") and v.get("init") is not None:
+                    x = RU.strip_addr(f, v["init"])
+                    if x is not None and x["k"] == "var" and x["n"] == batch:
+                        binds.add(v["n"])
+    direct = 0
+    for e, i in uses:
+        x = f.d(e.node["a"][i])
+        while x is not None and x["k"] == "cast":
+            x = f.d(x["a"][0])
+        if x is not None and x["k"] == "un" and x["op"] == "addr":
+            direct += 1
+    bound_other = [e for e in f.all_events() if e.kind == "access" and e.node["k"] == "var" and e.node["n"] in binds and e.mode != "r"]
+    bound_reads = [e for e in f.all_events() if e.kind == "access" and e.node["k"] == "var" and e.node["n"] in binds and e.mode == "r"]
+    R.check(okuse and len(other) == direct + len(binds) and not bound_other and len(bound_reads) == len(uses) - direct, "BATCH", "batch-is-private", "%s()" % f.name, "the batch list's address only goes to linked-list functions (%d uses)" % len(uses),
             "the batch list escapes: tasks scheduled while running could land in the current batch")
     swaps = [e for e in f.calls("aws_linked_list_swap_contents")]
     pushes = [e for e in f.calls({"aws_linked_list_push_back", "aws_linked_list_push_front", "aws_linked_list_insert_before", "aws_linked_list_insert_after"}) if argstr(f, e.node, 0) == batch]
@@ -147,47 +166,83 @@ def run_rules(R, ts):
             [e for e in f.calls("aws_linked_list_pop_front") if argstr(f, e.node, 0) == "scheduler->timed_list"]
     R.require(len(moves) == 3, "s_run_all: expected 2 heap pops and 1 timed-list pop, found %d" % len(moves))
     tops = [e for e in f.calls("aws_priority_queue_top") if argstr(f, e.node, 0) == "scheduler->timed_queue"]
+    now = f.params[1]["n"]
+    # roles: the heap's top is reached through the variable aws_priority_queue_top fills in; anything else with a
+    # timestamp is the head of the timed list
+    topvars = {argstr(f, t.node, 1) for t in tops}
+
+    def ts_kind(n):
+        """'heap' / 'list' when n is <task>->timestamp, else None"""
+        n = RU.uncast(f, n)
+        if n is None or n["k"] != "member" or n["f"] != "timestamp" or n.get("rec") != "aws_task":
+            return None
+        names = {x["n"] for x in f.walk(n, follow_refs=True) if x["k"] == "var"}
+        return "heap" if names & topvars else "list"
+
+    def time_rel(c_, p_):
+        """(kind, op) for a decision `<kind task>.timestamp op current_time` (either operand order, either polarity)"""
+        g = RU.cmp_norm(f, c_, p_)
+        if not g or g[2] is None:
+            return None
+        l, op, r = RU.uncast(f, g[0]), g[1], RU.uncast(f, g[2])
+        flip = {"<": ">", "<=": ">=", ">": "<", ">=": "<=", "==": "==", "!=": "!="}
+        if ts_kind(l) and r is not None and r["k"] == "var" and r["n"] == now:
+            return ts_kind(l), op
+        if ts_kind(r) and l is not None and l["k"] == "var" and l["n"] == now:
+            return ts_kind(r), flip[op]
+        return None
     for m in moves:
-        from_heap = m.node["callee"] == "aws_priority_queue_pop"
-        ok = False
-        seen = []
-        for c, p, b in RU.guards(f, m, dom):
-            g = RU.cmp_norm(f, c, p)
-            if not g or g[2] is None:
-                continue
-            l, op, r = RU.uncast(f, g[0]), g[1], RU.uncast(f, g[2])
-            ls, rs = f.show(l), f.show(r)
-            if rs == "current_time" and op in ("<=", "<") and l["k"] == "member" and l["f"] == "timestamp":
-                seen.append(ls)
-                if from_heap and "ptrptr" in ls or (not from_heap and "ptrptr" not in ls):
-                    ok = True
-            if ls == "current_time" and op in (">=", ">") and r["k"] == "member" and r["f"] == "timestamp":
-                seen.append(rs)
-                if from_heap and "ptrptr" in rs or (not from_heap and "ptrptr" not in rs):
-                    ok = True
-        R.check(ok, "NEVER-EARLY", "%s:line-guard" % m.node["callee"], where(f, m), "the task moved has timestamp <= current_time (%s)" % seen,
-                "a timed task is moved into the batch without the guard timestamp <= current_time on that task (guards on: %s): it can run early" % seen)
-        if from_heap:
+        kind = "heap" if m.node["callee"] == "aws_priority_queue_pop" else "list"
+        rels = [time_rel(c, p) for c, p, b in RU.guards(f, m, dom)]
+        ok = any(r_ and r_[0] == kind and r_[1] in ("<=", "<") for r_ in rels)
+        R.check(ok, "NEVER-EARLY", "%s:line-guard" % m.node["callee"], where(f, m), "the task moved has timestamp <= current_time (%s)" % [r_ for r_ in rels if r_],
+                "a timed task is moved into the batch without the guard timestamp <= current_time on that task (time guards: %s): it can run early" % [r_ for r_ in rels if r_])
+        if kind == "heap":
             R.check(any(ev_dominates(f, t, m, dom) for t in tops), "NEVER-EARLY", "heap-pop-after-top", where(f, m), "the heap's top was inspected before popping")
-    # every break out of a move loop is taken only when the earliest remaining task is later than current_time
-    n_br = 0
-    for b in f.blocks.values():
-        if b.term == "break":
-            n_br += 1
-            fake = type("E", (), {"blk": b.id, "idx": 0, "seq": 0})()
-            gs = [RU.cmp_norm(f, c, p) for c, p, bb in RU.guards(f, fake, dom)]
-            ok = any(g and g[2] is not None and f.show(RU.uncast(f, g[2])) == "current_time" and g[1] == ">" and RU.uncast(f, g[0])["k"] == "member" and RU.uncast(f, g[0])["f"] == "timestamp" for g in gs)
-            R.check(ok, "NEVER-EARLY", "move-loop-left-only-when-later", "%s:%s in s_run_all()" % (f.file.replace("/repo/", ""), (b.term_loc or [0])[0]),
-                    "the loop is abandoned only when the earliest remaining task is later than current_time", "a move loop is abandoned although due tasks may remain (they would not run in this call)")
-    R.require(n_br == 2, "s_run_all: expected two break statements in the move loops, found %d" % n_br)
+    # every way out of a move loop is taken only when its container is empty or its earliest remaining task is later than
+    # current_time - whether written as a loop condition, as a `break` under a test, or as one && condition
+    from sa.cfg import edges as _edges
+    from sa.num import Num as _Num
+    n_exits = 0
+    for header, body in _Num(f, None, None).loops().items():
+        region = set(body) | {header}
+        if not any(m.blk in region for m in moves):
+            continue
+
+        def reason(c_, p_):
+            cc, neg = RU.cond_call(f, c_)
+            if cc is not None and cc.get("callee") == "aws_linked_list_empty" and argstr(f, cc, 0) == "scheduler->timed_list" and (p_ != neg):
+                return "list empty"
+            t_ = RU.call_test(f, c_, p_)
+            if t_ and t_[0].get("callee") == "aws_priority_queue_top" and t_[1] == "nonzero":
+                return "heap empty"
+            r_ = time_rel(c_, p_)
+            if r_ and r_[1] == ">":
+                return "%s head later" % r_[0]
+            return None
+        for b in sorted(region):
+            for succ, cnd, pol in _edges(f, b):
+                if succ in region or f.blocks[b].noreturn:
+                    continue
+                n_exits += 1
+                if cnd is not None and isinstance(pol, bool):
+                    why = reason(cnd, pol)
+                else:
+                    fake = type("E", (), {"blk": b, "idx": 0, "seq": 0})()
+                    why = next((reason(c_, p_) for c_, p_, bb in RU.guards(f, fake, dom) if bb in region and reason(c_, p_)), None)
+                R.check(why is not None, "NEVER-EARLY", "move-loop-left-only-when-later", "%s:%s in s_run_all()" % (f.file.replace("/repo/", ""), (f.blocks[b].term_loc or [0])[0]),
+                        "the loop is left only when its container is empty or the earliest remaining task is later than current_time (%s)" % why, "a move loop is abandoned although due tasks may remain (they would not run in this call)")
+    R.require(n_exits >= 3, "s_run_all: only %d exits of the move loops found (confirmed by reading: 4)" % n_exits)
     # merge order: heap task taken before the list head only if strictly earlier
     hp = [m for m in moves if m.node["callee"] == "aws_priority_queue_pop"]
     okm = False
     for m in hp:
         for c, p, b in RU.guards(f, m, dom):
             g = RU.cmp_norm(f, c, p)
-            if g and g[2] is not None and g[1] in ("<", "<=") and "ptrptr" in f.show(g[0]) and "timed_list_task->timestamp" in f.show(g[2]):
-                okm = True
+            if g and g[2] is not None:
+                kl, kr = ts_kind(g[0]), ts_kind(g[2])
+                if (kl, g[1], kr) in (("heap", "<", "list"), ("list", ">", "heap")):
+                    okm = True
     R.check(okm, "NEVER-EARLY", "merge-by-time", "%s()" % f.name, "between heap and list the earlier task is taken first")
 
 
@@ -316,6 +371,18 @@ def has_tasks_rules(R, ts, batch=True):
             if el["k"] == "bin" and el["op"] in ("<", "<="):
                 if "timestamp" in f.show(el["a"][0]) and f.show(RU.uncast(f, el["a"][1])) == "timestamp":
                     mins.append(el)
+            if el["k"] == "bin" and el["op"] in (">", ">="):
+                if "timestamp" in f.show(el["a"][1]) and f.show(RU.uncast(f, el["a"][0])) == "timestamp":
+                    mins.append(el)
+    # ... or the same minimum taken through the library's min helper
+    for b in f.blocks.values():
+        for el in b.elems:
+            if el["k"] == "bin" and el["op"] == "=" and f.show(RU.uncast(f, el["a"][0])) == "timestamp":
+                rh = RU.uncast(f, el["a"][1])
+                if rh is not None and rh["k"] == "call" and rh.get("callee") in ("aws_min_u64", "aws_min_size"):
+                    ops = sorted(f.show(RU.uncast(f, a)) for a in rh["a"])
+                    if len(ops) == 2 and "timestamp" in ops and any(o.endswith("->timestamp") for o in ops):
+                        mins.append(el)
     R.check(len(mins) == 1, "HAS-TASKS", "minimum-of-heap-and-list", "%s()" % f.name, "the heap's top replaces the list's head only when strictly earlier")
     # "always reports the earliest pending time": every container a scheduled, not yet invoked task can sit in is looked at.
     # s_run_all moves the tasks of the current call into a list that is local to it before it invokes them one by one.
